@@ -476,7 +476,25 @@ def _derived_dicts(repo: Repo, ci: ClassInfo) -> Set[str]:
                     if isinstance(t, ast.Attribute) and isinstance(t.value, ast.Name) and t.value.id == "self" \
                             and isinstance(node.value, ast.Dict) and not node.value.keys:
                         out.add(t.attr)
+                    # an empty instance of a dict subclass of the package is a derived table as well (C12 judges its methods)
+                    if isinstance(t, ast.Attribute) and isinstance(t.value, ast.Name) and t.value.id == "self" \
+                            and dict_subclass_instance(repo, c.module, node.value) is not None:
+                        out.add(t.attr)
     return out
+
+
+def dict_subclass_instance(repo: Repo, m, value) -> Optional[ClassInfo]:
+    """`C()` where C is a class of the package that subclasses dict (or defines __setitem__)"""
+    if not (isinstance(value, ast.Call) and not value.args and not value.keywords and isinstance(value.func, (ast.Name, ast.Attribute))):
+        return None
+    r = repo.resolve_expr_static(m, value.func)
+    if r is None or r.kind != "class" or r.cls is None:
+        return None
+    for b in repo.mro(r.cls):
+        if "__setitem__" in b.methods or any(norm(x).split("[")[0] in ("dict", "Dict", "OrderedDict", "defaultdict", "UserDict")
+                                             for x in b.node.bases):
+            return r.cls
+    return None
 
 
 # ------------------------------------------------------------------------------------------ (4) facade caches
